@@ -109,3 +109,35 @@ extern "C" void h_dns_longlabel() {
     if (g_cb) VP_ASSERT(g_na == 0 && g_nc == 0, "a reply without answers reports no records");
     VP_REACH("dns_longlabel");
 }
+
+// (v) response codes: every non-zero rcode (1..15) from one of two servers. Name error / format error complete the lookup with that error
+// status at once; any other code only rules out that server: the lookup completes with the other server's good reply, or with
+// all-servers-failed once both have answered with an error - never as a success without data
+extern "C" void h_dns_rcode() {
+    vpf::FakeLoop loop; g_cb = 0; g_status = -1; g_na = g_nc = 0;
+    DnsRequest dns(&loop, {IPAddress(0x01010101u), IPAddress(0x02020202u)});
+    dns.request(DomainName("a.b"), on_result);
+    unsigned rc = nondet_uchar(); VP_ASSUME(rc >= 1 && rc <= 15);
+    unsigned char err[12] = { 0x00, 0x01, 0x81, 0x80, 0, 0, 0, 0, 0, 0, 0, 0 }; err[3] = (unsigned char)(0x80 | rc);
+    dns.onUdpRecv(err, sizeof(err), SockAddr());
+    if (rc == 3) VP_ASSERT(g_cb == 1 && g_status == (int)DnsRequest::Result::Status::kDomainError, "a name error completes the lookup with the domain-error status");
+    else if (rc == 1) VP_ASSERT(g_cb == 1 && g_status == (int)DnsRequest::Result::Status::kFail, "a format error completes the lookup with the failure status");
+    else {
+        VP_ASSERT(g_cb == 0, "an error reply from one of two servers does not complete the lookup (and is never reported as a success)");
+        bool second_good = nondet_bool();
+        if (second_good) {
+            unsigned char pkt[37] = {
+                0x00, 0x01, 0x81, 0x80, 0x00, 0x01, 0x00, 0x01, 0x00, 0x00, 0x00, 0x00, 1, 'a', 1, 'b', 0, 0x00, 0x01, 0x00, 0x01, 0xC0, 0x0C,
+                0x00, 0x01, 0x00, 0x01, 0x00, 0x00, 0x00, 0x3C, 0x00, 0x04, 9, 8, 7, 6 };
+            dns.onUdpRecv(pkt, sizeof(pkt), SockAddr());
+            VP_ASSERT(g_cb == 1 && g_status == (int)DnsRequest::Result::Status::kSuccess && g_na == 1 && g_ip0 == 0x06070809u, "the other server's good reply completes the lookup with its record");
+        } else {
+            unsigned rc2 = nondet_uchar(); VP_ASSUME(rc2 >= 2 && rc2 <= 15 && rc2 != 3);
+            err[3] = (unsigned char)(0x80 | rc2);
+            dns.onUdpRecv(err, sizeof(err), SockAddr());
+            VP_ASSERT(g_cb == 1 && g_status == (int)DnsRequest::Result::Status::kAllDnsFail, "once every server has answered with an error the lookup completes as all-servers-failed");
+        }
+    }
+    VP_ASSERT(g_cb <= 1, "callback at most once");
+    VP_REACH("dns_rcode");
+}
